@@ -16,14 +16,18 @@ EXPLANATION = (
     "bytes or boundary-sized payloads with symbolic edge bytes, symbolic close code, mask on/off with a fully symbolic "
     "32-bit mask per frame) is sent through the real WebSocketWriter; the bytes it hands to the transport are cut at "
     "solver-chosen positions and fed to the real WebSocketReader. Per path z3 decides that the messages received equal "
-    "the messages sent (type, payload, close code/reason), that nothing else is delivered and no error is raised.")
+    "the messages sent (type, payload, close code/reason), that nothing else is delivered and no error is raised. Compression: "
+    "a solver-chosen script of sends (small = synchronous path, large = executor path under lock and shield; with or "
+    "without a per-message compress= override; from several tasks, optionally in the same loop iteration) and "
+    "cancellations runs on the real writer with contract-stub compressors; the wire is read back by the real reader "
+    "with a contract-stub inflater: every completed send is received intact exactly once and the stream stays decodable.")
 ASSUMPTIONS = [
     "_websocket_mask_python is replaced by the XOR model mask[i % 4] ^ data[i]; equivalence of the real table/slice implementation with that model is checked exhaustively on concrete data by the lemma 'ws-mask-table' (65536 table entries, all alignments)",
     "random.getrandbits(32) is an arbitrary 32-bit value (symbolic)",
-    "per-message deflate (zlib), context takeover, the 16 KiB sync threshold and lock/shield interleavings under compression are outside: C library behind FFI",
+    "per-message deflate: zlib itself is a C library behind FFI; compressor and inflater are replaced by contract stubs that carry zlib's context dependency (the output of a compressor names the messages it has consumed since it was created or fully flushed; the inflater resolves that only against the tail of what it has inflated). What the bytes of a deflate stream look like, window sizes and compression levels are outside the claim; which compressor object sees which message in which order - context takeover, per-message compress= override, the 16 KiB sync/executor threshold, lock and shield under concurrent senders and cancellation - is decided",
     "transport is an in-memory recorder that never pauses the writer",
 ]
-TRUSTED = ["XOR model of the masking function (lemma-checked)"]
+TRUSTED = ["XOR model of the masking function (lemma-checked)", "contract stubs _CStub/_DStub for zlib's context dependency"]
 
 NON_ASCII_TEXTS = ["\u00e9", "\u20acx", "\U0001f600"]
 OPC = {"text": 1, "binary": 2, "ping": 9, "pong": 10, "close": 8}
@@ -183,6 +187,168 @@ def boundary(ctx, size=126, kind="binary", use_mask=False, ncuts=2):
     info = None if f is True else {"key": f"boundary-size-{size}", "cuts": [c1, c2]}
     return f, f"size{size}", info
 
+# ---- per-message deflate under a contract stub: context takeover, lock / shield, cancellation --------
+def _d(data):
+    return (len(data) * 7 + (data[0] if len(data) else 0) + 1) % 251
+
+
+def _fold(ds):
+    h = 0
+    for x in ds:
+        h = (h * 31 + x + 1) % 251
+    return h
+
+
+class _CStub:
+    """Contract stub for ZLibCompressor (zlib is FFI).  A deflate stream may refer back to what the
+    same compressor has consumed since it was created or last fully flushed; the stub makes that
+    dependency explicit: its output starts with two bytes naming that history (how many messages,
+    and a digest of them)."""
+
+    instances = []
+
+    def __init__(self, level=None, wbits=None, max_sync_chunk_size=None, **kw):
+        self.msgs = []
+        _CStub.instances.append(self)
+
+    def compress_sync(self, data):
+        out = bytes([len(self.msgs), _fold(self.msgs)]) + bytes(data)
+        self.msgs.append(_d(data))
+        return out
+
+    async def compress(self, data):
+        import asyncio
+
+        ref = bytes([len(self.msgs), _fold(self.msgs)])
+        await asyncio.sleep(0)  # the executor hop of large payloads
+        self.msgs.append(_d(data))
+        return ref + bytes(data)
+
+    def flush(self, mode=None):
+        from aiohttp.compression_utils import ZLibBackend
+
+        if mode == ZLibBackend.Z_FULL_FLUSH:
+            self.msgs = []  # no context takeover: the next message starts from an empty window
+        return b"\x00\x00\xff\xff"
+
+
+class _DStub:
+    """Contract stub for the peer's inflater: a reference to the last n messages resolves only if
+    those are the last n messages it has itself inflated (its window holds everything since the
+    connection began, RFC 7692 context takeover)."""
+
+    def __init__(self, **kw):
+        self.msgs = []
+        self.errors = 0
+
+    def decompress_sync(self, data, max_length=0):
+        data = bytes(data)
+        if data.endswith(b"\x00\x00\xff\xff"):
+            data = data[:-4]
+        if len(data) < 2:
+            return b""
+        n, dg, payload = data[0], data[1], data[2:]
+        if n > len(self.msgs) or _fold(self.msgs[len(self.msgs) - n:]) != dg:
+            self.errors += 1
+            raise ValueError("invalid distance too far back")  # what zlib says for a dangling back-reference
+        self.msgs.append(_d(payload))
+        return payload
+
+    @property
+    def data_available(self):
+        return False
+
+
+def compressed(ctx, k=5, nsenders=2):
+    """Messages are sent through the real WebSocketWriter with per-message deflate negotiated, from
+    several tasks, small (synchronous path) and large (executor path under lock + shield), with an
+    optional per-message compress= override and with cancellation of a sender; the bytes on the wire
+    are read back by the real WebSocketReader.  Compressor and inflater are contract stubs that carry
+    zlib's context dependency.  Every message whose send completed is received intact, exactly once,
+    and the stream never becomes undecodable."""
+    import asyncio
+
+    from aiohttp import WSMsgType
+    from aiohttp._websocket import reader_py, writer as writer_mod
+    from aiohttp._websocket.reader_py import WebSocketDataQueue, WebSocketReader
+    from aiohttp._websocket.writer import WebSocketWriter
+    from aiohttp.base_protocol import BaseProtocol
+
+    from harness.vloop import MemTransport, VLoop, install
+
+    loop = install(VLoop())
+    _CStub.instances = []
+    writer_mod.ZLibCompressor = _CStub
+    reader_py.ZLibDecompressor = _DStub
+    notakeover = ctx.flag("no_context_takeover")
+    use_mask = False  # (masking is what the uncompressed round trip decides)
+    tr = MemTransport()
+    proto = BaseProtocol(loop)
+    proto.connection_made(tr)
+    w = WebSocketWriter(proto, tr, use_mask=use_mask, compress=15, notakeover=notakeover)
+    BIG = writer_mod.WEBSOCKET_MAX_SYNC_CHUNK_SIZE + 1
+    sends = []  # dict(task, payload, cancelled)
+    trace = []
+
+    async def send(payload, override):
+        await w.send_frame(payload, WSMsgType.BINARY, compress=override)
+
+    for i in range(k):
+        enabled = []
+        if len(sends) < nsenders + 2:
+            enabled += [("send", "small", None), ("send", "large", None), ("send", "small", 9), ("send", "large", 9)]
+        for j, sd in enumerate(sends):
+            if not sd["task"].done() and not sd["cancelled"]:
+                enabled.append(("cancel", j))
+        enabled.append(("tick",))
+        op = ctx.pick(f"op{i}", enabled)
+        trace.append(list(op))
+        if op[0] == "send":
+            n = len(sends)
+            payload = bytes([65 + n]) * (3 if op[1] == "small" else BIG)
+            sends.append({"task": asyncio.Task(send(payload, op[2]), loop=loop), "payload": payload, "cancelled": False})
+            if ctx.flag(f"same_iteration{i}"):
+                continue
+        elif op[0] == "cancel":
+            sends[op[1]]["task"].cancel()
+            sends[op[1]]["cancelled"] = True
+        loop.run_ready()
+    loop.run_ready()
+    loop.advance(1)
+    info = {"trace": trace, "no_context_takeover": notakeover}
+    for j, sd in enumerate(sends):
+        if not sd["task"].done():
+            info["key"] = "send-never-completes"
+            return False, "inv:z", info
+    q = WebSocketDataQueue(proto, 2 ** 22, loop=loop)
+    r = WebSocketReader(q, 0, True, False)
+    wire = bytes(tr.out)
+    if use_mask:
+        # the reader of the peer unmasks; frames are independent, the real reader does it
+        pass
+    r.feed_data(wire)
+    got = [bytes(m.data) for m in q._buffer if int(m.type) == 2]
+    if q._exception is not None:
+        shape = (":after-per-message-compress-override" if any(t[0] == "send" and t[2] for t in trace) and not notakeover else "") + \
+            (":with-cancelled-sender" if any(t[0] == "cancel" for t in trace) else "")
+        info.update(key="compressed-stream-undecodable" + shape, received=len(got), sent=len(sends),
+                    overrides=[t[2] for t in trace if t[0] == "send"])
+        return False, "inv:z", info
+    done_ok = [sd["payload"] for sd in sends if not sd["task"].cancelled() and sd["task"].exception() is None]
+    for pl in done_ok:
+        if got.count(pl) != 1:
+            info.update(key="completed-send-not-received-exactly-once", count=got.count(pl), size=len(pl))
+            return False, "inv:z", info
+    allowed = [sd["payload"] for sd in sends]
+    for g in got:
+        if g not in allowed:
+            info.update(key="received-message-differs-from-any-sent", size=len(g))
+            return False, "inv:z", info
+    if len(got) > len(sends):
+        info.update(key="more-messages-received-than-sent")
+        return False, "inv:z", info
+    return True, f"z:{len(got)}of{len(sends)}", None
+
 
 def twin(ctx):
     f, tag, info = roundtrip(ctx, nmsg=1, maxlen=1)
@@ -241,6 +407,8 @@ def jobs(tier):
         for m in (False, True):
             out.append(dict(name=f"size-{size}-{'mask' if m else 'plain'}", func="boundary",
                             params=dict(size=size, use_mask=m), limits=lim))
+    out.append(dict(name="deflate-contract", func="compressed", params=dict(k=4 if quick else 6, nsenders=2 if quick else 3),
+                    limits=lim))
     return out
 
 
@@ -248,7 +416,7 @@ def twins(tier):
     return [dict(name="twin", func="twin", params={}, limits={"time_limit": 30, "max_paths": 30})]
 
 
-REQUIRED_OUTCOMES = ("1+", "2+", "9+", "8", "size126")
+REQUIRED_OUTCOMES = ("1+", "2+", "9+", "8", "size126", "z:")
 
 
 def bounds(tier):
@@ -257,4 +425,5 @@ def bounds(tier):
             "close": "code solver-chosen from the registered codes or symbolic in 3000..4999; reason 0..2 printable ASCII bytes",
             "mask": "use_mask symbolic; each frame's 32-bit mask fully symbolic",
             "boundary_sizes": "125,126,127 (quick) + 65535,65536 (thorough, concrete mask): symbolic first/last 2 payload bytes, 2 symbolic cuts in header/tail region",
-            "cuts": "1 symbolic cut (2-message runs), 2 symbolic cuts (3-message runs)"}
+            "cuts": "1 symbolic cut (2-message runs), 2 symbolic cuts (3-message runs)",
+            "compression": "scripts of 4 (quick) / 6 steps over {send small/large x override none/9, cancel a pending sender, tick}, each send optionally in the same loop iteration as the next step; context takeover on/off; contract-stub compressor/inflater"}
